@@ -160,3 +160,17 @@ silent("C73", "normalise-with-if-else",
              "            if isinstance(circuits, QuantumScript):\n                batch = (circuits,)\n            else:\n                batch = circuits\n            self.tracker.update(jvp_batches=1, jvps=len(batch))")])
 silent("C73", "docstring-bullet-removed",
        [(ST, "    * ``shots``: the number of shots\n", "")])
+
+
+# further variant sets live in pennyverif/vsets/<name>.py (each does `from ..variants import fire, silent`)
+def _load_sets():
+    import importlib
+    import pkgutil
+
+    from . import vsets
+
+    for mi in sorted(pkgutil.iter_modules(vsets.__path__), key=lambda m: m.name):
+        importlib.import_module(f"pennyverif.vsets.{mi.name}")
+
+
+_load_sets()
